@@ -477,6 +477,11 @@ func (w *world) deliverable(c, src *xchain, kind string, ph clienttypes.Height, 
 	if _, ok := c.App.XIBCKeeper.ClientKeeper.GetClientConsensusState(c.ReadCtx(), src.Cfg.Name, ph); !ok {
 		return
 	}
+	// (a governance re-anchoring may have put the client's latest height below heights it verified before:
+	// proofs above the latest height are legitimately refused)
+	if cs, ok := c.App.XIBCKeeper.ClientKeeper.GetClientState(c.ReadCtx(), src.Cfg.Name); !ok || cs.GetLatestHeight().LT(ph) || strings.Contains(log, "invalid height") {
+		return
+	}
 	if d := w.proofDelay(c, src); d > 0 {
 		if pt, ok := w.processedAt(c, src, ph.RevisionHeight); !ok || pt+d > uint64(c.CurHdr.Time.UnixNano()) {
 			return
